@@ -2,6 +2,7 @@
 C13 — the end-to-end run on a telnet port: every schedule of sends, reads and extractions.
 -/
 import NV.C13.Lemmas9
+import NV.C13.LemmasH
 
 namespace NV.C13
 
@@ -25,12 +26,13 @@ structure F where
 
 /-- the explicit side condition, checked step by step:
     * at a read, the pending text is below the discard threshold of get_user_data
-      (`(MAX_TEXT - pending - 1)/3 >= MAX_TEXT/16`, i.e. pending ≤ 1663);
+      (`(MAX_TEXT - pending - 1)/3 >= MAX_TEXT/16`, i.e. pending ≤ 1663) or contains a complete command
+      (the read is then held back: `getUserDataH`);
     * at an extraction, the pending text does not fill the buffer (pending ≤ MAX_TEXT-2; otherwise
       first_cmd_in_buf cuts the line). -/
 def readOK (s : S) : Bool :=
   match s.port with
-  | .telnet => keepsPending (s.tend - s.tstart)
+  | .telnet => keepsPending (s.tend - s.tstart) || hasCmd (pend s)   -- else: an unfinished over-long line is discarded
   | _ => decide (s.tend - s.tstart + asciiReserve + 1 ≤ MAXT)   -- PORT_ASCII: the pending text does not fill the buffer (else: discarded)
 
 def hasAbort (evs : List Ev) : Bool := evs.any (fun e => e == .cberr)
@@ -38,7 +40,7 @@ def hasAbort (evs : List Ev) : Bool := evs.any (fun e => e == .cberr)
 def fStep (o : Oracle) (f : F) : FOp → Except String F
   | .send b => .ok { f with s := { f.s with sock := f.s.sock ++ b }, sent := f.sent ++ b, lastNone := false }
   | .read =>
-    match getUserData o f.s with
+    match getUserDataH o f.s with
     | .error e => .error e
     | .ok (s', evs) =>
       .ok { f with s := s', received := f.received ++ f.s.sock.take (f.s.sock.length - s'.sock.length),
@@ -97,7 +99,7 @@ theorem telnetK_step {o : Oracle} (hnd : NoDest o) {f f' : F} (op : FOp) (k : f.
       (fun hh => by cases hh), by show f.received ++ (f.s.sock ++ b) = f.sent ++ b; rw [← List.append_assoc, k.sentEq]⟩
   | read =>
     simp only [fStep] at h
-    cases hg : getUserData o f.s with
+    cases hg : getUserDataH o f.s with
     | error e => rw [hg] at h; cases h
     | ok res =>
       obtain ⟨s', evs⟩ := res
@@ -105,8 +107,34 @@ theorem telnetK_step {o : Oracle} (hnd : NoDest o) {f f' : F} (op : FOp) (k : f.
       injection h with h; subst h
       simp only [Bool.and_eq_true] at hc'
       have k := k hc'.1
-      have hk2 : keepsPending (f.s.tend - f.s.tstart) = true := by
-        have := hc'.2; simp only [readOK, k.port] at this; exact this
+      by_cases hk2 : keepsPending (f.s.tend - f.s.tstart) = true
+      rotate_left
+      · -- above the discard threshold with a complete command pending: the read is held back, nothing changes
+        have hkf : keepsPending (f.s.tend - f.s.tstart) = false := by simpa using hk2
+        have hcmd : hasCmd (pend f.s) = true := by
+          have := hc'.2; simp only [readOK, k.port, hkf, Bool.false_or] at this; exact this
+        have hh := holdRead_true k.inv k.port k.single hkf hcmd
+        have hH : getUserDataH o f.s =
+            .ok ({ f.s with dec := { f.s.dec with fl := { f.s.dec.fl with cmdInBuf := true } } }, []) := by
+          unfold getUserDataH; rw [hh]
+        rw [hH] at hg
+        injection hg with hg
+        injection hg with e1 e2
+        subst e1; subst e2
+        have e0 : f.s.sock.take (f.s.sock.length - f.s.sock.length) = [] := by simp
+        refine ⟨⟨k.inv.textLen, k.inv.se, k.inv.eMax, decInv_fl k.inv.dec _⟩, k.port, k.single,
+          valid_congr rfl rfl k.valid, ?_, ?_, fun _ => rfl, (fun hh => by cases hh), ?_⟩
+        · show modeOf _ = modeAfter .data (f.received ++ f.s.sock.take (f.s.sock.length - f.s.sock.length))
+          rw [e0, List.append_nil]; exact (modeOf_congr rfl rfl).trans k.mode
+        · intro x
+          show (f.delivered ++ inputsOf []) ++ cmdsOf [] (pend f.s ++ x) =
+            cmdsOf [] (renderToks (toks .data (f.received ++ f.s.sock.take (f.s.sock.length - f.s.sock.length))) ++ x)
+          rw [e0, List.append_nil]
+          show (f.delivered ++ []) ++ _ = _
+          rw [List.append_nil]; exact k.cmds x
+        · show (f.received ++ f.s.sock.take (f.s.sock.length - f.s.sock.length)) ++ f.s.sock = f.sent
+          rw [e0, List.append_nil]; exact k.sentEq
+      rw [getUserDataH_keeps o k.inv hk2] at hg
       obtain ⟨s2, evs2, hg2, i2, p2, hev, hcase⟩ := telnet_read_exact hnd k.inv k.port k.single hk2
       rw [hg] at hg2
       injection hg2 with hg2
